@@ -68,7 +68,7 @@ package netpoll
 //@   ensures setupdone(c)
 //@   note the descriptor now belongs to c (its netFD is a copy of the caller's): init itself never closes the caller's Conn, c's finalizer closes the number once
 //@   forbid invoke.Close
-//@   modifies world, c.operator, locker.heldP, c.heldC, locker.sealed_heldP, FDOperator.owned, operatorCache.ocl, runFailed, ocBase, prepDone, prepRegistered, prepOK, cbRuns
+//@   modifies world, c.operator, locker.heldP, c.heldC, locker.sealed_heldP, FDOperator.owned, operatorCache.ocl, runFailed, ocBase, prepDone, prepRegistered, prepOK, cbRuns, ocTrigR, ocTrigW
 //@   note Pick panics when the pollers cannot be opened (known finding of C18); assumed not to happen here
 //@   ghost (*connection).initFDOperator/after call (*manager).Pick#1: assume result != nil
 
@@ -82,7 +82,7 @@ package netpoll
 //@   threadlocal !acUntrack && !acStored && !acConnect && !acActive
 //@   ensures acStored ==> acUntrack
 //@   ensures acConnect ==> acStored
-//@   modifies world, acUntrack, acStored, acConnect, acActive, connection.setup, prepDone, prepOK, prepRegistered, runFailed, FDOperator.owned, locker.sealed_heldP, locker.heldP, locker.heldC, operatorCache.ocl, ocBase, cbRuns
+//@   modifies world, acUntrack, acStored, acConnect, acActive, connection.setup, prepDone, prepOK, prepRegistered, runFailed, FDOperator.owned, locker.sealed_heldP, locker.heldP, locker.heldC, operatorCache.ocl, ocBase, cbRuns, ocTrigR, ocTrigW
 //@   ghost before call (*connection).init#1: assert !wasalloc(arg0); arg0.setup = true
 //@   ghost before call (*connection).AddCloseCallback#1: acUntrack = true
 //@   ghost after call (*connection).IsActive#1: acActive = result
@@ -111,7 +111,7 @@ package netpoll
 //@   ensures result
 //@   ensures (activeConn == old(activeConn) && shClosed == old(shClosed) + 1) || (activeConn == old(activeConn) + 1 && shClosed == old(shClosed))
 //@   ensures activeConn == old(activeConn) + 1 ==> as(value, *connection).keychain[closing] == old(as(value, *connection).keychain[closing])
-//@   modifies world, key:cell:int, shClosed, idleUnlocked, locker.heldP, locker.sealed_heldP, cbRuns
+//@   modifies world, key:cell:int, shClosed, idleUnlocked, locker.heldP, locker.sealed_heldP, cbRuns, ocTrigR, ocTrigW
 //@   ghost before call invoke.Close#1: assert !typeis(value, *connection) || idleUnlocked
 //@   ghost before call invoke.Close#1: shClosed = shClosed + 1
 
@@ -148,7 +148,7 @@ package netpoll
 //@   threadlocal !orDetach && !orRetry && !orQuit
 //@   ensures orRetry ==> orDetach
 //@   ensures orQuit ==> orDetach && result != nil
-//@   modifies world, orDetach, orRetry, orQuit, acUntrack, acStored, acConnect, acActive, connection.setup, prepDone, prepOK, prepRegistered, runFailed, FDOperator.owned, locker.sealed_heldP, locker.heldP, locker.heldC, operatorCache.ocl, ocBase, cbRuns
+//@   modifies world, orDetach, orRetry, orQuit, acUntrack, acStored, acConnect, acActive, connection.setup, prepDone, prepOK, prepRegistered, runFailed, FDOperator.owned, locker.sealed_heldP, locker.heldP, locker.heldC, operatorCache.ocl, ocBase, cbRuns, ocTrigR, ocTrigW
 //@   ghost before call (*FDOperator).Control#1: orDetach = true
 //@   ghost before call dyn#1: assert orDetach; orRetry = true
 //@   ghost before call (*FDOperator).Control#2: orDetach = true
@@ -161,7 +161,7 @@ package netpoll
 //@   requires s != nil && s.ln != nil && s.operator.poll != nil && s.operator.detached >= 0 && s.operator.detached < 2147483640
 //@   threadlocal !orReReg
 //@   ensures orReReg
-//@   modifies world, orReReg, acUntrack, acStored, acConnect, acActive, connection.setup, prepDone, prepOK, prepRegistered, runFailed, FDOperator.owned, locker.sealed_heldP, locker.heldP, locker.heldC, operatorCache.ocl, ocBase, cbRuns
+//@   modifies world, orReReg, acUntrack, acStored, acConnect, acActive, connection.setup, prepDone, prepOK, prepRegistered, runFailed, FDOperator.owned, locker.sealed_heldP, locker.heldP, locker.heldC, operatorCache.ocl, ocBase, cbRuns, ocTrigR, ocTrigW
 //@   loop 1 invariant 0 <= retryTimeIndex && retryTimeIndex < 7 && !orReReg && s.ln != nil && s.operator.poll != nil && s.operator.detached >= 0 && s.operator.detached < 2147483640
 //@   ghost before call (*FDOperator).Control#1: assert arg1 == 1; orReReg = true
 //@   note accepting resumes once descriptors are available again: the pause between two accept attempts is bounded (at most one second)
@@ -178,13 +178,22 @@ package netpoll
 //@   ensures err != nil ==> result != nil
 
 // a dial returns a usable connection or an error, never both and never neither
+//@ ghost global dlDoneSeen bool
+//@ ghost global dlLastErrVal int
 //@ func (*dialer).dialTCP
 //@   property C14
 //@   requires ctx != nil
+//@   note on timeout the error reports Timeout(): when the deadline is observed after an attempt, the caller gets the error of that attempt (the one that ran
+//@     into the deadline; DialTCP maps it to the timeout error), not the error of an earlier address
+//@   ensures dlDoneSeen ==> err != nil && err#val == dlLastErrVal
+//@   ghost at entry: dlDoneSeen = false
+//@   ghost after call DialTCP#1: dlLastErrVal = result1#val
+//@   ghost after call DialTCP#2: dlLastErrVal = result1#val
+//@   ghost before recv Done#1: dlDoneSeen = true
 //@   assume cblist() && mbase(pollmanager) && (pollmanager.status == 2 ==> mgood(pollmanager)) && pollmanager.status != 1 && errMissingAddress != nil
 //@   ensures (err == nil) == (connection != nil)
-//@   modifies world, fdopen, closecnt, FDOperator.owned, operatorCache.ocl, operatorCache.ofl, runFailed, wwDetached, ocBase, netFD.dialing, sockFd, sockClosed, sockOpen, nonblock, key:netpoll.connection.setup, key:netpoll.connection.operator, locker.heldP, locker.heldC, locker.sealed_heldP, prepDone, prepRegistered, prepOK, cbRuns, dlOpened, dlClosed, dlKept, netFD.closed
-//@   loop 1 invariant -1 <= rangeindex && tcpAddr != nil && ctx != nil
+//@   modifies world, fdopen, closecnt, FDOperator.owned, operatorCache.ocl, operatorCache.ofl, runFailed, wwDetached, ocBase, netFD.dialing, sockFd, sockClosed, sockOpen, nonblock, key:netpoll.connection.setup, key:netpoll.connection.operator, locker.heldP, locker.heldC, locker.sealed_heldP, prepDone, prepRegistered, prepOK, cbRuns, ocTrigR, ocTrigW, dlOpened, dlClosed, dlKept, netFD.closed, dlDoneSeen, dlLastErrVal
+//@   loop 1 invariant -1 <= rangeindex && tcpAddr != nil && ctx != nil && !dlDoneSeen
 //@   loop 1 invariant cblist() && mbase(pollmanager) && (pollmanager.status == 2 ==> mgood(pollmanager)) && pollmanager.status != 1 && errMissingAddress != nil
 //@   note the poller pool and the callback list keep their invariants across calls that do not change them (proved for the functions that do: C18, C05)
 //@   ghost after call DialTCP#1: assume cblist() && mbase(pollmanager) && (pollmanager.status == 2 ==> mgood(pollmanager)) && pollmanager.status != 1 && errMissingAddress != nil
@@ -202,7 +211,7 @@ package netpoll
 //@   requires conn != nil && (typeis(conn, *netFD) ==> conn#val != 0)
 //@   assume cblist() && mbase(pollmanager) && (pollmanager.status == 2 ==> mgood(pollmanager)) && pollmanager.status != 1
 //@   ensures (err == nil) == (connection != nil)
-//@   modifies world, key:netpoll.connection.setup, key:netpoll.connection.operator, locker.heldP, locker.heldC, locker.sealed_heldP, FDOperator.owned, operatorCache.ocl, runFailed, ocBase, prepDone, prepRegistered, prepOK, cbRuns
+//@   modifies world, key:netpoll.connection.setup, key:netpoll.connection.operator, locker.heldP, locker.heldC, locker.sealed_heldP, FDOperator.owned, operatorCache.ocl, runFailed, ocBase, prepDone, prepRegistered, prepOK, cbRuns, ocTrigR, ocTrigW
 //@   ghost before call (*connection).init#1: assert !wasalloc(arg0); arg0.setup = true
 //@ func (*sysDialer).dialUnix
 //@   property C14
@@ -210,23 +219,23 @@ package netpoll
 //@   results uc err
 //@   assume cblist() && mbase(pollmanager) && (pollmanager.status == 2 ==> mgood(pollmanager)) && pollmanager.status != 1
 //@   ensures (err == nil) == (uc != nil)
-//@   modifies world, fdopen, closecnt, FDOperator.owned, operatorCache.ocl, operatorCache.ofl, runFailed, wwDetached, ocBase, netFD.dialing, sockFd, sockClosed, sockOpen, nonblock, key:netpoll.connection.setup, key:netpoll.connection.operator, locker.heldP, locker.heldC, locker.sealed_heldP, prepDone, prepRegistered, prepOK, cbRuns
+//@   modifies world, fdopen, closecnt, FDOperator.owned, operatorCache.ocl, operatorCache.ofl, runFailed, wwDetached, ocBase, netFD.dialing, sockFd, sockClosed, sockOpen, nonblock, key:netpoll.connection.setup, key:netpoll.connection.operator, locker.heldP, locker.heldC, locker.sealed_heldP, prepDone, prepRegistered, prepOK, cbRuns, ocTrigR, ocTrigW
 //@ func DialUnix
 //@   property C14
 //@   results connection err
 //@   assume cblist() && mbase(pollmanager) && (pollmanager.status == 2 ==> mgood(pollmanager)) && pollmanager.status != 1
 //@   ensures (err == nil) == (connection != nil)
-//@   modifies world, fdopen, closecnt, FDOperator.owned, operatorCache.ocl, operatorCache.ofl, runFailed, wwDetached, ocBase, netFD.dialing, sockFd, sockClosed, sockOpen, nonblock, key:netpoll.connection.setup, key:netpoll.connection.operator, locker.heldP, locker.heldC, locker.sealed_heldP, prepDone, prepRegistered, prepOK, cbRuns
+//@   modifies world, fdopen, closecnt, FDOperator.owned, operatorCache.ocl, operatorCache.ofl, runFailed, wwDetached, ocBase, netFD.dialing, sockFd, sockClosed, sockOpen, nonblock, key:netpoll.connection.setup, key:netpoll.connection.operator, locker.heldP, locker.heldC, locker.sealed_heldP, prepDone, prepRegistered, prepOK, cbRuns, ocTrigR, ocTrigW
 //@ func DialTCP
 //@   property C14
 //@   results connection err
 //@   assume cblist() && mbase(pollmanager) && (pollmanager.status == 2 ==> mgood(pollmanager)) && pollmanager.status != 1 && errMissingAddress != nil
 //@   ensures (err == nil) == (connection != nil)
-//@   modifies world, fdopen, closecnt, FDOperator.owned, operatorCache.ocl, operatorCache.ofl, runFailed, wwDetached, ocBase, netFD.dialing, sockFd, sockClosed, sockOpen, nonblock, key:netpoll.connection.setup, key:netpoll.connection.operator, locker.heldP, locker.heldC, locker.sealed_heldP, prepDone, prepRegistered, prepOK, cbRuns, dlOpened, dlClosed, dlKept, netFD.closed
+//@   modifies world, fdopen, closecnt, FDOperator.owned, operatorCache.ocl, operatorCache.ofl, runFailed, wwDetached, ocBase, netFD.dialing, sockFd, sockClosed, sockOpen, nonblock, key:netpoll.connection.setup, key:netpoll.connection.operator, locker.heldP, locker.heldC, locker.sealed_heldP, prepDone, prepRegistered, prepOK, cbRuns, ocTrigR, ocTrigW, dlOpened, dlClosed, dlKept, netFD.closed
 //@ func (*dialer).DialConnection
 //@   property C14
 //@   ensures (err == nil) == (connection != nil)
-//@   modifies world, fdopen, closecnt, FDOperator.owned, operatorCache.ocl, operatorCache.ofl, runFailed, wwDetached, ocBase, netFD.dialing, sockFd, sockClosed, sockOpen, nonblock, key:netpoll.connection.setup, key:netpoll.connection.operator, locker.heldP, locker.heldC, locker.sealed_heldP, prepDone, prepRegistered, prepOK, cbRuns, dlOpened, dlClosed, dlKept, netFD.closed
+//@   modifies world, fdopen, closecnt, FDOperator.owned, operatorCache.ocl, operatorCache.ofl, runFailed, wwDetached, ocBase, netFD.dialing, sockFd, sockClosed, sockOpen, nonblock, key:netpoll.connection.setup, key:netpoll.connection.operator, locker.heldP, locker.heldC, locker.sealed_heldP, prepDone, prepRegistered, prepOK, cbRuns, ocTrigR, ocTrigW, dlOpened, dlClosed, dlKept, netFD.closed, dlDoneSeen, dlLastErrVal
 
 // a netFD being dialled is not yet visible to any other goroutine or callback ("c is not yet accessible to user")
 //@ ghost field netFD.dialing bool threadlocal
@@ -342,7 +351,7 @@ package netpoll
 //@   requires conn != nil && (typeis(conn, *netFD) ==> conn#val != 0)
 //@   assume cblist() && mbase(pollmanager) && (pollmanager.status == 2 ==> mgood(pollmanager)) && pollmanager.status != 1
 //@   ensures (err == nil) == (connection != nil)
-//@   modifies world, key:netpoll.connection.setup, key:netpoll.connection.operator, locker.heldP, locker.heldC, locker.sealed_heldP, FDOperator.owned, operatorCache.ocl, runFailed, ocBase, prepDone, prepRegistered, prepOK, cbRuns
+//@   modifies world, key:netpoll.connection.setup, key:netpoll.connection.operator, locker.heldP, locker.heldC, locker.sealed_heldP, FDOperator.owned, operatorCache.ocl, runFailed, ocBase, prepDone, prepRegistered, prepOK, cbRuns, ocTrigR, ocTrigW
 //@   ghost before call (*connection).init#1: assert !wasalloc(arg0); arg0.setup = true
 //@ func (*sysDialer).dialTCP
 //@   property C14 C15
@@ -351,7 +360,7 @@ package netpoll
 //@   assume cblist() && mbase(pollmanager) && (pollmanager.status == 2 ==> mgood(pollmanager)) && pollmanager.status != 1
 //@   ensures (err == nil) == (tc != nil)
 //@   ensures dlOpened == dlClosed + dlKept && dlKept <= 1
-//@   modifies world, fdopen, closecnt, FDOperator.owned, operatorCache.ocl, operatorCache.ofl, runFailed, wwDetached, ocBase, netFD.dialing, sockFd, sockClosed, sockOpen, nonblock, key:netpoll.connection.setup, key:netpoll.connection.operator, locker.heldP, locker.heldC, locker.sealed_heldP, prepDone, prepRegistered, prepOK, cbRuns, dlOpened, dlClosed, dlKept, netFD.closed
+//@   modifies world, fdopen, closecnt, FDOperator.owned, operatorCache.ocl, operatorCache.ofl, runFailed, wwDetached, ocBase, netFD.dialing, sockFd, sockClosed, sockOpen, nonblock, key:netpoll.connection.setup, key:netpoll.connection.operator, locker.heldP, locker.heldC, locker.sealed_heldP, prepDone, prepRegistered, prepOK, cbRuns, ocTrigR, ocTrigW, dlOpened, dlClosed, dlKept, netFD.closed
 //@   loop 1 invariant dlOpened == dlClosed + ite(err == nil, 1, 0) && dlKept == 0 && (err == nil) == (conn != nil) && (err == nil ==> fdopen[conn.fd] && conn.closed == 0)
 //@   loop 1 invariant mbase(pollmanager) && (pollmanager.status == 2 ==> mgood(pollmanager)) && pollmanager.status != 1 && cblist()
 //@   note the poller pool and the callback list keep their invariants across calls that do not change them (proved for the functions that do: C18, C05)
@@ -385,7 +394,7 @@ package netpoll
 //@   results conn err
 //@   assume cblist() && mbase(pollmanager) && (pollmanager.status == 2 ==> mgood(pollmanager)) && pollmanager.status != 1
 //@   ensures (err == nil) == (conn != nil)
-//@   modifies world, key:netpoll.connection.setup, key:netpoll.connection.operator, locker.heldP, locker.heldC, locker.sealed_heldP, FDOperator.owned, operatorCache.ocl, runFailed, ocBase, prepDone, prepRegistered, prepOK, cbRuns
+//@   modifies world, key:netpoll.connection.setup, key:netpoll.connection.operator, locker.heldP, locker.heldC, locker.sealed_heldP, FDOperator.owned, operatorCache.ocl, runFailed, ocBase, prepDone, prepRegistered, prepOK, cbRuns, ocTrigR, ocTrigW
 //@   ghost before call (*connection).init#1: assert !wasalloc(arg0); arg0.setup = true
 
 // server.Run: binds the listener's slot to a poller and registers it; a failed registration is reported through onQuit
